@@ -44,6 +44,12 @@ class SourceTree:
             for fn in sorted(fns):
                 if fn.endswith('.py') and fn not in EXCLUDE_FILES:
                     out.append(os.path.relpath(os.path.join(dp, fn), self.root))
+        # files that exist only in the overlay (a patch replayed in memory that adds a module)
+        for rel in sorted(self.overlay):
+            if rel.endswith('.py') and rel.startswith(PKG + '/') and rel not in out \
+                    and os.path.basename(rel) not in EXCLUDE_FILES and not any(
+                        part in EXCLUDE_DIRS for part in rel.split('/')[:-1]):
+                out.append(rel)
         return out
 
     def pyx_files(self):
